@@ -61,7 +61,7 @@ A_PREPEND = ['-Ia', '-Ib', '-I/usr/include', '-La', '-Lb']
 A_APPEND = ['-DA', '-DA=1', '-DB', '-UA', '-isystemS', '-isystem/usr/include', '-isystem=/usr/include']
 A_ONCE = ['-lfoo', '-lbar', '-lm', '-lc', '/abs/libz.so', '/abs/libq.a', 'libq.a', '/abs/libv.so.1.2', '-pthread', '-Wl,-rpath,x']
 A_PLAIN = ['-O2', '-Wall', '-g', 'main.c', '/usr/include', '/abs/dir']
-A_STANDALONE = ['-D', '-U', '-isystem']
+A_STANDALONE = ['-D', '-U', '-isystem', '-l']
 A_UNDEFINED = ['-I', '-L']
 ALPHA_CLIKE = A_PREPEND + A_APPEND + A_ONCE + A_PLAIN + A_STANDALONE + A_UNDEFINED
 ALPHA_BASE_OK = ['-O2', '-Wall', '-g', 'main.c', '/abs/dir', '--flag', '/abs/libz.so', '/abs/libq.a', 'libq.a', '/abs/libv.so.1.2']
